@@ -77,7 +77,7 @@ def walk_stream(ctx: Ctx, spec, interp, buf, e, E, cap, n_from, n_to, start, tag
         if atab is not None:
             ctx.check(np.array_equal(np.asarray(a, np.float64), np.asarray(atab[s], np.float64)), "C05/stored-action-not-the-chosen-one", tags=tags, n=n, chosen=atab[s], stored=a)
         if chooser is not None:
-            exp_a = chooser(s)
+            exp_a = chooser(s, p)
             if exp_a is not None:
                 ctx.check(int(a) == int(exp_a), "C05/stored-action-not-the-current-policys-choice", tags=tags, n=n, env=e, state=s, stored=int(a), expected=int(exp_a))
         ca = interp.clip(a)
